@@ -79,7 +79,7 @@ PINNED_TABLES = {
 		'"catapult/utils/MacroBasedEnum\\.h"', '"ReentrancyCheckReaderNotificationPolicy.h"', '<ref10/crypto_verify_32.h>', '<dlfcn.h>', '<io.h>',
 		'<mach/mach.h>', '<psapi.h>', '<stdexcept>', '<sys/file.h>', '<sys/resource.h>', '<sys/time.h>', '<unistd.h>', '<windows.h>']
 }
-IS_CPP_INCLUDE_SKELETON = '2db40735d28714fe'   # is_cpp_include with the list literal emptied (set by _skeleton_without_list)
+IS_CPP_INCLUDE_SKELETON = '3ab8be9eca0c8772'   # is_cpp_include with the list literal emptied (set by _skeleton_without_list)
 
 REGEX_SPECIAL = set('.^$*+?{}[]\\|()')
 
